@@ -314,6 +314,7 @@ func cmdCheck(args []string) {
 	crossDisagree := 0
 	notCross := 0
 	var failedNames []string
+	knownNames := []string{}
 	var viol []item
 	sort.SliceStable(items, func(i, j int) bool { return items[i].o.Name < items[j].o.Name })
 	for _, it := range items {
@@ -340,6 +341,7 @@ func cmdCheck(args []string) {
 		}
 		if kf, ok := open[o.Name]; ok {
 			known++
+			knownNames = append(knownNames, o.Name)
 			fmt.Printf("KNOWN-FINDING: property=%s %s [%s]\n", cfg.ID, kf.What, o.Name)
 			delete(open, o.Name)
 			continue
@@ -382,6 +384,7 @@ func cmdCheck(args []string) {
 		}
 		if kf, ok := open[d.Name]; ok {
 			known++
+			knownNames = append(knownNames, d.Name)
 			fmt.Printf("KNOWN-FINDING: property=%s %s [%s]\n", cfg.ID, kf.What, d.Name)
 			delete(open, d.Name)
 			continue
@@ -475,8 +478,10 @@ func cmdCheck(args []string) {
 		bs[n] = map[string]interface{}{"unsat": s.Unsat, "sat": s.Sat, "unknown_or_timeout": s.Unknown, "seconds": float64(s.Ms) / 1000}
 	}
 	cov := map[string]interface{}{
-		"obligations":   total,
-		"discharged":    discharged + known*0,
+		"obligations":   total - known, // obligations claimed as proved; open known findings are listed separately, never counted as discharged
+		"discharged":    discharged,
+		"obligations_generated": total,
+		"known_finding_obligations": knownNames,
 		"checker_cmd":   fmt.Sprintf("/verif/bin/check %s %s   (vcgo: go/ssa -> SMT-LIB; z3-new 5.1.0 | cvc5 1.0.3 | z3 4.8.12, %ds per query)", cfg.ID, *tier, timeout),
 		"trusted_base":  []string{"vcgo (SSA->SMT translation, contract resolver, Houdini, dataflow passes)", "go/packages, go/types, go/ssa x/tools v0.29.0", "z3 5.1.0, z3 4.8.12, cvc5 1.0.3", "assumed dependency contracts /verif/specs/deps.spec (those used are listed under assumptions)"},
 		"samples":       samples,
